@@ -16,6 +16,16 @@ CHECKS = {
         "Decides four families of panic / unbounded-recursion preconditions that are visible in the code, over every function of the module: (R1) unchecked type assertions are provably safe; (R2) every reflect call with a panic precondition is dominated by a guard that establishes it; (R3) every recursive cycle of the call graph walks a finite tree, or - for cycles through the template loader or through reflected data - carries an effective depth guard / visited set; (R5) no panic()/Must* on template or data values.",
         "Not decided: index/slice bounds outside reflect, nil dereferences, division, panics inside dependencies or user-registered functions, termination of loops other than the recursion shapes above. Trusted: go/ssa, VTA call graph, the table of reflect preconditions in the checker.",
     ),
+    "C09": (
+        "must-lockset dataflow with inferred guarded-by relation; inter-procedural read-only taint of shared DOM / caller data with field-based heap; who-may-write scan of engine state over the concurrent cone",
+        "Decides a lock/ownership discipline over the enumerated shared state, each item a necessary condition for race freedom: (R1) every access to a field that lives next to a mutex and is ever accessed under it holds that mutex in the right mode; (R2) cached parsed templates and cached front-matter are never written through, in any function they reach; (R3) the caller's data is never written nor installed as a writable scope; (R4) no other unsynchronised write to package-level or engine state in the cone of the concurrent entry points; (R6) the v-once set is per render; plus pool hygiene (C10.R4) and cache-key completeness (C10.R6).",
+        "Not decided: that concurrent renders return the same bytes as sequential ones; races inside dependencies (expr-lang VM, yaml, lessgo, goldmark); user-supplied FuncMap/NodeProcessor code. Trusted: go/ssa, VTA call graph, sync.Mutex/RWMutex/Once/Pool semantics.",
+    ),
+    "C10": (
+        "map-range body classification on SSA natural loops (commutative vs order-sensitive, sorted-afterwards), pool reset dominance, forward value-flow taint from clock/random sources to output sinks, cache-key dependency analysis",
+        "Decides the structural sources of render-to-render differences: (R1) no range over a map (or unsorted reflect MapKeys) feeds ordered output; (R4) pooled objects are reset before Put and not used after; (R5) no clock/random value flows into text, emitted attributes or a writer; (R6) memoised values depend only on their cache key; (C09.R2/R3) rendering modifies neither the loaded templates nor the caller's data.",
+        "Not decided: byte identity of two renders as such; after-effects of failed renders beyond pool hygiene. Trusted: go/ssa, call graph, sort.* sorts.",
+    ),
 }
 
 PENDING_REASON = "check for this property is being built in this session (see DESIGN.md section 2 for the planned rules); not claimed until its rules run clean on the unchanged tree"
